@@ -428,6 +428,24 @@ func c06Check(b *core.B, n *xNode, r *core.Rng) {
 			return
 		}
 	}
+	// the value does not depend on the expression having been evaluated before:
+	// one parsed template, executed twice
+	// (printed without the recording wrappers, so that literal operands are literal)
+	bare := "<%= " + n.print(0, false, r) + " %>"
+	if t, err := plush.NewTemplate(bare); err == nil {
+		for k := 0; k < 3; k++ {
+			var o R
+			o.Pan = core.Guard(func() { o.Out, o.Err = t.Exec(c06Ctx(&c06Env{})) })
+			if o.Pan != nil {
+				b.Violate(o.Pan.Sig(), o.Pan.Value)
+				return
+			}
+			if (o.Err == nil) != (outs[0].Err == nil) || o.Out != outs[0].Out {
+				b.ViolateIn("repeated-execution-differs|"+xClass(n), bare, fmt.Sprintf("fresh render of the wrapped form: %s\nexecution %d of one parsed template: %s", outs[0], k+1, o))
+				return
+			}
+		}
+	}
 	b.NonTrivialStr(base)
 	sigc := xClass(n)
 	// metamorphic: the three printings agree
